@@ -38,7 +38,7 @@ func c16(r *core.Run) []*core.Violation {
 	t := r.Tape
 	nUsers := 3 + t.Intn(3)
 	cfg := SimCfg{NVals: 1, NUsers: nUsers,
-		UserCoins: sdk.NewCoins(sdk.NewCoin(app.BondDenom, math.NewInt(10_000_000_000)), sdk.NewCoin(c16Native2, math.NewInt(1_000_000))),
+		UserCoins:       sdk.NewCoins(sdk.NewCoin(app.BondDenom, math.NewInt(10_000_000_000)), sdk.NewCoin(c16Native2, math.NewInt(1_000_000))),
 		RestartPerMille: 40, CrashPerMille: 40}
 	s := NewSim(r, cfg)
 	s.OnRestart = func() {
